@@ -398,6 +398,106 @@ func pipelineCorners() []input {
 	}
 }
 
+// Names that only appear when path segments are JOINED (added after seeded change C03-g: keyword test per segment, nothing
+// looks at the joined candidate): for a keyword or predeclared identifier K and a split K = A+B (or A+B+C), neither part
+// suspicious on its own,
+//   - x/B is referenced first and takes the one-segment name, so that A/B falls back to the two-segment candidate A+B = K
+//     (three parts: x/C and y/B/C first, then A/B/C);
+//   - the segments behind a "domain" / "apis" segment are joined at once: a.com/domain/A/B, a.com/x/apis/A/B;
+//   - a vN segment does not count as a segment: x/B/v2 first, then A/B/v2 (candidate A+B+"v2"), and A/v1/B.
+// The parts are used as they are, capitalised, or with punctuation that the normalisation drops.
+var goKeywords = []string{"break", "case", "chan", "const", "continue", "default", "defer", "else", "fallthrough", "for", "func", "go", "goto", "if", "import",
+	"interface", "map", "package", "range", "return", "select", "struct", "switch", "type", "var"}
+
+func universeNames() []string {
+	names := types.Universe.Names()
+	var out []string
+	for _, n := range names {
+		if len(n) >= 2 {
+			out = append(out, n)
+		}
+	}
+	return out
+}
+
+func (g *gen) dress(seg string) string {
+	switch g.r.Intn(8) {
+	case 0:
+		return strings.ToUpper(seg[:1]) + seg[1:]
+	case 1:
+		return seg + "-"
+	case 2:
+		return strings.ToUpper(seg)
+	}
+	return seg
+}
+
+func (g *gen) joinedNames(tier string) []input {
+	var out []input
+	self := "example.com/m"
+	one := func(k string, i int, variant int) {
+		a, b := g.dress(k[:i]), g.dress(k[i:])
+		host := core.Pick(g.r, []string{"github.com/acme", "a.com", "example.com/mod"})
+		switch variant {
+		case 0:
+			out = append(out, refs(self, host+"/net/"+b, host+"/"+a+"/"+b))
+		case 1:
+			if g.r.Bool() {
+				out = append(out, refs(self, host+"/domain/"+a+"/"+b))
+			} else {
+				out = append(out, refs(self, host+"/x/apis/"+a+"/"+b))
+			}
+		case 2:
+			if g.r.Bool() {
+				out = append(out, refs(self, "b.org/"+b+"/v2", host+"/"+a+"/"+b+"/v2"))
+			} else {
+				out = append(out, refs(self, "b.org/y/"+b, host+"/"+a+"/v1/"+b))
+			}
+		default: // other reference kinds: the package is first met as a type argument / inside a type literal
+			out = append(out, input{Self: self, Ops: []opIn{
+				{K: "ref", Via: "id", Path: "example.com/o", Name: "Pair", Args: []node{{Path: host + "/net/" + b, Name: "T"}, {Path: host + "/" + a + "/" + b, Name: "Item"}}},
+				{K: "lit", Shape: "map", Elems: []node{{Name: "string"}, {Path: host + "/" + a + "/" + b, Name: "List"}}},
+				{K: "ref", Via: "expose", Path: host + "/" + a + "/" + b, Name: "New"}}})
+		}
+	}
+	words := func(ws []string, all bool) {
+		for _, k := range ws {
+			var splits []int
+			for i := 1; i < len(k); i++ {
+				splits = append(splits, i)
+			}
+			if !all && len(splits) > 2 {
+				for i := len(splits) - 1; i > 0; i-- {
+					j := g.r.Intn(i + 1)
+					splits[i], splits[j] = splits[j], splits[i]
+				}
+				splits = splits[:2]
+			}
+			for _, i := range splits {
+				one(k, i, 0)
+				if all {
+					one(k, i, 1)
+					one(k, i, 1+g.r.Intn(3))
+				} else {
+					one(k, i, 1+g.r.Intn(3))
+				}
+			}
+			if len(k) >= 3 { // three parts
+				i := 1 + g.r.Intn(len(k)-2)
+				j := i + 1 + g.r.Intn(len(k)-i-1)
+				a, b, c := g.dress(k[:i]), g.dress(k[i:j]), g.dress(k[j:])
+				out = append(out, refs(self, "a.com/x/"+c, "b.org/y/"+b+"/"+c, "a.com/"+a+"/"+b+"/"+c))
+				if g.r.Bool() {
+					out = append(out, refs(self, "a.com/x/domain/"+a+"/"+b+"/"+c))
+				}
+			}
+		}
+	}
+	words(goKeywords, true)
+	words(universeNames(), tier == "thorough")
+	return out
+}
+
 func refs(self string, paths ...string) input {
 	in := input{Self: self}
 	for _, p := range paths {
@@ -444,7 +544,15 @@ func (prop) Generate(r *core.RNG, tier string) []json.RawMessage {
 	fixed = append(fixed, vendorCorners()...)
 	fixed = append(fixed, tplCorners()...)
 	fixed = append(fixed, pipelineCorners()...)
+	fixed = append(fixed,
+		refs("example.com/m", "github.com/acme/net/port", "github.com/acme/im/port"),
+		refs("example.com/m", "a.com/x/age", "a.com/pack/age", "a.com/y/through", "a.com/fall/through", "a.com/x/ing", "a.com/str/ing", "a.com/x/ror", "a.com/er/ror"),
+		refs("example.com/m", "a.com/domain/im/port", "a.com/x/apis/fu/nc", "a.com/domain/str/ing"),
+	)
 	for _, f := range fixed {
+		out = append(out, marshal(f))
+	}
+	for _, f := range g.joinedNames(tier) {
 		out = append(out, marshal(f))
 	}
 	n := 900
